@@ -63,7 +63,7 @@ S_ctx(st)     == FnOf(st.ctx, LAMBDA c : c.id,
                                   freq |-> c.freq, total |-> c.total, batch |-> c.batch,
                                   reqCount |-> c.reqCount, respCount |-> c.respCount, bthr |-> c.bthr,
                                   bstate |-> c.bstate, state |-> c.state, thr |-> c.thr, module |-> c.module,
-                                  rresp |-> c.rresp, rstate |-> c.rstate])
+                                  rresp |-> c.rresp, rstate |-> c.rstate, rtgt |-> c.rtgt])
 S_q(q)        == {<<x[1], x[2]>> : x \in RangeOf(q)}
 S_qh(q)       == FnOf(q, LAMBDA x : x.id, LAMBDA x : x.h)
 S_req(st)     == FnOf(st.req, LAMBDA r : T4(r.rid),
@@ -115,7 +115,7 @@ Conf ==
       [] e.name = "ModCreate" ->
             IF e.ok THEN /\ ModCreateR(e.module, e.signer, e.svc, e.provs, e.input, e.cap, e.capok, e.inok,
                                       e.timeout, e.super, e.rep, e.freq, e.total, e.state, e.thr,
-                                      e.rresp, e.rstate)
+                                      e.rresp, e.rstate, e.rtgt)
                          /\ e.id = nctx + 1
             ELSE Rej(CanModCreate(e.signer, e.svc, e.provs, e.capok, e.inok, e.timeout, e.thr))
       [] e.name = "Pause" -> IF e.ok THEN Pause(e.signer, e.id) ELSE Rej(CanPause(e.signer, e.id))
